@@ -161,6 +161,21 @@ func (t *PageTree) loadPages() error {
 // traversePageNode recursively traverses a page tree node
 // parent is the parent Pages dictionary for inheritable attributes
 func (t *PageTree) traversePageNode(node core.Dict, parent core.Dict) error {
+	return t.traversePageNodeGuarded(node, parent, make(map[int]bool), new(int))
+}
+
+// maxPageTreeNodes bounds the number of page tree nodes visited, so that a
+// malformed tree that shares sub-trees cannot multiply the work without end.
+const maxPageTreeNodes = 1 << 20
+
+// traversePageNodeGuarded is traversePageNode with a guard against /Kids
+// entries that lead back to a node on the current path (ancestors holds the
+// object numbers of the Pages nodes being traversed).
+func (t *PageTree) traversePageNodeGuarded(node core.Dict, parent core.Dict, ancestors map[int]bool, visited *int) error {
+	*visited++
+	if *visited > maxPageTreeNodes {
+		return fmt.Errorf("page tree has more than %d nodes", maxPageTreeNodes)
+	}
 	// Get the type to determine if this is a Pages node or Page leaf
 	typeObj := node.Get("Type")
 	if typeObj == nil {
@@ -204,8 +219,22 @@ func (t *PageTree) traversePageNode(node core.Dict, parent core.Dict) error {
 				return fmt.Errorf("invalid kid type: %T", kidResolved)
 			}
 
+			// A kid that is one of its own ancestors would recurse forever
+			kidNum := -1
+			if ref, ok := kidObj.(core.IndirectRef); ok {
+				kidNum = ref.Number
+				if ancestors[kidNum] {
+					return fmt.Errorf("page tree cycle: kid %d (object %d) is its own ancestor", i, kidNum)
+				}
+				ancestors[kidNum] = true
+			}
+
 			// Recursively traverse child (passing current node as parent)
-			if err := t.traversePageNode(kidDict, node); err != nil {
+			err = t.traversePageNodeGuarded(kidDict, node, ancestors, visited)
+			if kidNum >= 0 {
+				delete(ancestors, kidNum)
+			}
+			if err != nil {
 				return err
 			}
 		}
